@@ -3,6 +3,9 @@ package main
 // Evaluation of specification expressions into SMT terms.
 
 import (
+	"regexp"
+	"hash/fnv"
+	"golang.org/x/tools/go/ssa"
 	"fmt"
 	"go/ast"
 	"go/constant"
@@ -94,6 +97,13 @@ func (c *specCtx) node(n *SpecNode) Val {
 		c.x.quantDepth++
 		body := c.node(n.A).S()
 		c.x.quantDepth--
+		// canonical bound-variable name: alpha-equivalent quantified formulas over the same terms
+		// become syntactically identical, so a fact `r == (exists k. P)` assumed from a contract
+		// matches a goal `(exists k. P)` propositionally
+		if canon := canonicalBound(n.Var, qv, body); canon != qv {
+			body = strings.ReplaceAll(body, qv, canon)
+			qv = canon
+		}
 		q := fmt.Sprintf("(%s ((%s %s)) %s)", n.Op, qv, scalarSort(t), body)
 		// (exists k. P(k)) is equivalent to P(c1) || ... || (exists k. P(k)) for any terms ci:
 		// offer the range-loop indices in scope as witnesses so that solvers need not guess them
@@ -633,27 +643,24 @@ func (c *specCtx) call(t *ast.CallExpr, n *SpecNode) Val {
 		v := arg(0)
 		return boolVal(app("bvuge", v.L[0], c.old.alloc))
 	case "fnIs":
-		// fnIs(f, "pkg.Func"): the function value is statically known to be this function
-		// (a closure of it, or a bound method "pkg.(*T).M$bound"); false when unknown
+		// fnIs(f, "pkg.Func"): the function value is (a closure of) this function;
+		// bound methods are "pkg.(*T).M$bound". Decided symbolically through fcode.
 		lit, ok := t.Args[1].(*ast.BasicLit)
 		if !ok {
 			return c.fail("fnIs: second argument must be a string literal")
 		}
 		want, _ := strconv.Unquote(lit.Value)
+		if !c.x.prog.hasFuncRel(want) {
+			return c.fail("fnIs: no function %q in the program", want)
+		}
 		v := arg(0)
-		if v.Fn == nil && v.Dyn != nil {
-			v = *v.Dyn
+		if scalarSort(v.T) != SFn || len(v.L) != 1 {
+			return c.fail("fnIs: %q is not a function value", n.Text)
 		}
-		if v.Fn != nil && c.x.prog.relName(v.Fn) == want {
-			return boolVal("true")
-		}
-		return boolVal("false")
+		return boolVal(eq(app("fcode", v.L[0]), fnCodeOf(want)))
 	case "fnBind":
-		// fnBind(f, i): the i-th free variable captured by a statically known closure
+		// fnBind(f, i): the i-th captured variable of a closure, when it is itself a function value (i < 3)
 		v := arg(0)
-		if v.Fn == nil && v.Dyn != nil {
-			v = *v.Dyn
-		}
 		iv := arg(1)
 		k := -1
 		if iv.Const != nil {
@@ -661,10 +668,78 @@ func (c *specCtx) call(t *ast.CallExpr, n *SpecNode) Val {
 				k = int(kk)
 			}
 		}
-		if v.Fn == nil || k < 0 || k >= len(v.Bind) {
-			return c.fail("fnBind: closure or binding %d not statically known in %q", k, n.Text)
+		if scalarSort(v.T) != SFn || len(v.L) != 1 || k < 0 || k > 2 {
+			return c.fail("fnBind: unsupported in %q", n.Text)
 		}
-		return v.Bind[k]
+		return Val{T: types.NewSignatureType(nil, nil, nil, nil, nil, false), L: []string{app(fmt.Sprintf("fbindfn%d", k), v.L[0])}}
+	case "captured":
+		// captured(f, "pkg.Func$1", T): the variable of function type T captured by closures of
+		// the named function, read from closure value f (meaningful where fnIs(f, "pkg.Func$1") holds).
+		// The captured variable is found by its type, which must be unique among the free variables.
+		lit, ok := t.Args[1].(*ast.BasicLit)
+		if !ok || len(t.Args) != 3 {
+			return c.fail("captured(f, \"closure\", T) expected in %q", n.Text)
+		}
+		want, _ := strconv.Unquote(lit.Value)
+		var target *ssa.Function
+		for _, f := range c.x.prog.allFuncsByRel(want) {
+			target = f
+		}
+		if target == nil {
+			return c.fail("captured: no function %q", want)
+		}
+		v := arg(0)
+		ft := arg(2).T
+		if scalarSort(v.T) != SFn || len(v.L) != 1 || ft == nil || scalarSort(ft) != SFn {
+			return c.fail("captured: unsupported arguments in %q", n.Text)
+		}
+		idx, byRef := -1, false
+		for k, fv := range target.FreeVars {
+			if types.Identical(fv.Type(), ft) {
+				if idx >= 0 {
+					return c.fail("captured: several captured variables of type %v in %s", ft, want)
+				}
+				idx, byRef = k, false
+			}
+			if pt, ok := fv.Type().Underlying().(*types.Pointer); ok && types.Identical(pt.Elem(), ft) {
+				if idx >= 0 {
+					return c.fail("captured: several captured variables of type %v in %s", ft, want)
+				}
+				idx, byRef = k, true
+			}
+		}
+		if idx < 0 || idx > 2 {
+			return c.fail("captured: no captured variable of type %v among the first three of %s", ft, want)
+		}
+		if !byRef {
+			return Val{T: ft, L: []string{app(fmt.Sprintf("fbindfn%d", idx), v.L[0])}}
+		}
+		cell := Val{T: types.NewPointer(ft), L: []string{app(fmt.Sprintf("fbindref%d", idx), v.L[0])}}
+		return c.x.loadVal(c.st, cell, ft)
+	case "fnBindCell":
+		// fnBindCell(f, i): the function stored in the i-th captured variable of a closure
+		// when the variable is captured by reference (i < 3)
+		v := arg(0)
+		iv := arg(1)
+		k := -1
+		if iv.Const != nil {
+			if kk, ok := constant.Int64Val(iv.Const); ok {
+				k = int(kk)
+			}
+		}
+		if scalarSort(v.T) != SFn || len(v.L) != 1 || k < 0 || k > 2 {
+			return c.fail("fnBindCell: unsupported in %q", n.Text)
+		}
+		var ft types.Type = types.NewSignatureType(nil, nil, nil, nil, nil, false)
+		if len(t.Args) >= 3 {
+			// fnBindCell(f, i, T): the captured variable has the named function type T
+			ft = arg(2).T
+			if ft == nil || scalarSort(ft) != SFn {
+				return c.fail("fnBindCell: third argument must be a function type in %q", n.Text)
+			}
+		}
+		cell := Val{T: types.NewPointer(ft), L: []string{app(fmt.Sprintf("fbindref%d", k), v.L[0])}}
+		return c.x.loadVal(c.st, cell, ft)
 	case "sameExcept":
 		// sameExcept("pkg.Type.field", obj...): every object other than obj... has the same
 		// value in that heap region as in the old state (frame condition for loop invariants)
@@ -973,4 +1048,16 @@ func (c *specCtx) lenOf(v Val) string {
 		return app("slen", v.S())
 	}
 	return v.sLen()
+}
+
+var tempBound = regexp.MustCompile(`q![A-Za-z_][A-Za-z_0-9]*![0-9]+`)
+
+func canonicalBound(v, temp, body string) string {
+	h := fnv.New64a()
+	h.Write([]byte(tempBound.ReplaceAllString(body, "?")))
+	canon := fmt.Sprintf("q!%s!h%x", v, h.Sum64())
+	if strings.Contains(body, canon) {
+		return temp // would capture a nested binder of the same name
+	}
+	return canon
 }
